@@ -440,5 +440,21 @@ theorem decompress_encode (P : Bytes) (gs : List (List Tok)) (pad : Nat) (hv : v
       rw [show s'.pout + (j - P.length) = j by omega] at this
       exact this
 
+/-- **the certifying compressor**: whatever `compress` returns decompresses to the original -/
+theorem decompress_compress (x : Bytes) (pad : Nat) (img : Bytes) (h : compress x pad = some img) :
+    decompress img = .ok x := by
+  unfold compress at h
+  obtain ⟨j, _, hj⟩ := List.exists_of_findSome?_eq_some h
+  unfold tryCut at hj
+  simp only at hj
+  split at hj
+  · rename_i hc
+    simp only [Bool.and_eq_true, beq_iff_eq] at hc
+    have := decompress_encode _ _ pad hc.1
+    rw [hc.2] at this
+    simp only [Option.some.injEq] at hj
+    rw [← hj]; exact this
+  · cases hj
+
 end Lzss
 end Pyctr
